@@ -65,3 +65,48 @@ pub fn parse_mailbox_list_grammar(s: &str) -> Option<Vec<(Option<String>, String
         .ok()
         .map(|v| v.into_iter().map(|(n, (u, d))| (n, u, d)).collect())
 }
+
+/// Callback receiving the octet strings handed to [`observe`]
+pub type Observer = Arc<dyn Fn(&'static str, &[u8]) + Send + Sync + 'static>;
+
+static OBSERVER: RwLock<Option<Observer>> = RwLock::new(None);
+
+/// Registers (or removes) the observer of intermediate octet strings
+pub fn set_observer(cb: Option<Observer>) {
+    *OBSERVER.write().unwrap() = cb;
+}
+
+/// Shows an intermediate octet string (e.g. what is about to be hashed) to the observer
+#[allow(dead_code)]
+pub(crate) fn observe(tag: &'static str, data: &[u8]) {
+    let cb = OBSERVER.read().unwrap().clone();
+    if let Some(cb) = cb {
+        cb(tag, data);
+    }
+}
+
+/// `dkim_sign` with the signing time given
+#[cfg(feature = "dkim")]
+pub fn dkim_sign_fixed_time(
+    message: &mut crate::Message,
+    config: &crate::message::dkim::DkimConfig,
+    timestamp: std::time::SystemTime,
+) {
+    crate::message::dkim::verif_sign_fixed_time(message, config, timestamp);
+}
+
+/// The body canonicalization kernel
+#[cfg(feature = "dkim")]
+pub fn dkim_canonicalize_body(body: &[u8], relaxed: bool) -> Vec<u8> {
+    crate::message::dkim::verif_canonicalize_body(body, relaxed)
+}
+
+/// The header canonicalization kernel applied to the fields of `headers` named in `names`
+#[cfg(feature = "dkim")]
+pub fn dkim_canonicalize_headers(
+    names: &[&str],
+    headers: &crate::message::header::Headers,
+    relaxed: bool,
+) -> String {
+    crate::message::dkim::verif_canonicalize_headers(names, headers, relaxed)
+}
